@@ -11,10 +11,10 @@ pub fn prop() -> Prop {
     Prop {
         id: "C08",
         level: "model_checking",
-        rule: "all streams of <=4 (thorough <=5) rows {k,v,id} over the keys {a,b,c,absent} (ids make tied rows distinguishable) plus every stream of <=3 rows repeated cyclically to 17 and 40 rows x 13 pipelines (none; a selection under which rows repeat; 1,2,3 sort keys with ties in both directions; unique; unique+sort on a selected name; filter; filter+sort; split; split+sort) x {no grouping, --group-by, --merge} x S in 0..3 (thorough 0..6; long: 0,1,5,16,17,39,40,41) x T in {absent,0..3} (thorough 0..6; long: 0,1,5,16,17,40,41); non-trivial = the cut S+T falls inside the unlimited result and a tie straddles it, or a grouping stage follows the limiter; distinct by construction",
+        rule: "all streams of <=4 (thorough <=6) rows {k,v,id} over the keys {a,b,c,absent} (ids make tied rows distinguishable) plus every stream of <=3 rows repeated cyclically to 17 and 40 rows, and streams of 257 and 1030 rows (S,T around 255..257 and the end) x 13 pipelines (none; a selection under which rows repeat; 1,2,3 sort keys with ties in both directions; unique; unique+sort on a selected name; filter; filter+sort; split; split+sort) x {no grouping, --group-by, --merge} x S in 0..3 (thorough 0..6; long: 0,1,5,16,17,39,40,41) x T in {absent,0..3} (thorough 0..6; long: 0,1,5,16,17,40,41); non-trivial = the cut S+T falls inside the unlimited result and a tie straddles it, or a grouping stage follows the limiter; distinct by construction",
         explanation: "differential: the rows R of the same pipeline without --skip/--take (and without grouping) are obtained from the implementation; with the limits the output must be exactly R[S..S+T), and with grouping the single collection built from exactly those rows; every case is also compared with the reference pipeline (stable multi-key sort, first key most significant)",
         assumptions: COMMON_ASSUMPTIONS.to_vec(),
-        guards: vec!["cut-inside-a-tie", "limiter-before-grouper", "secondary-key-with-take", "take-zero", "skip-beyond-end", "more-rows-than-skip-plus-take-under-sort"],
+        guards: vec!["hundreds-of-rows", "cut-inside-a-tie", "limiter-before-grouper", "secondary-key-with-take", "take-zero", "skip-beyond-end", "more-rows-than-skip-plus-take-under-sort"],
         budget_s: (100, 2400),
         single_worker: false,
         run,
@@ -202,7 +202,7 @@ fn run(ctx: &mut Ctx) {
     let pls = pipelines();
     let (maxlen, smax) = match ctx.tier {
         Tier::Quick => (4usize, 3u64),
-        Tier::Thorough => (5, 6),
+        Tier::Thorough => (6, 6),
     };
     let ss: Vec<u64> = (0..=smax).collect();
     let mut ts: Vec<Option<u64>> = vec![None];
@@ -251,5 +251,23 @@ fn run(ctx: &mut Ctx) {
             }
         }
         ctx.level_done(&format!("cyclic-streams-of-{total}-rows"));
+    }
+    // size thresholds: hundreds of rows, so that the sorter's map and the buckets grow well past their first allocations
+    for total in [257usize, 1030] {
+        for (pi, pl) in pls.iter().enumerate() {
+            if !ctx.mine() {
+                continue;
+            }
+            if pl.sort_keys == 0 && pi > 1 && pi != 7 {
+                continue;
+            }
+            // 4 keys cycling with a stride, so ties are spread over the whole stream
+            let idx: Vec<usize> = (0..total).map(|i| (i * 7 + i / 5) % ks.len()).collect();
+            let rows = pipe::rows_from(&ks, &idx);
+            let t = total as u64;
+            explore(ctx, pl, &rows, &[0, 1, 255, 256, t - 1], &[None, Some(1), Some(255), Some(256), Some(257), Some(t)]);
+            ctx.guard("hundreds-of-rows");
+        }
+        ctx.level_done(&format!("long-streams-of-{total}-rows"));
     }
 }
